@@ -484,7 +484,7 @@ def replay_trees(tool, ctx, kindname, cases):
     return [c for c in vlib.read_jsonl(p) if c.get("kind") == kindname]
 
 
-def shrink_tree(tool, ctx, case, kindname, fails, rounds=40):
+def shrink_tree(tool, ctx, case, kindname, fails, rounds=15):
     """greedy deletion: keeps the smallest re-run case for which `fails(case)` still holds"""
     cur = case
     for _ in range(rounds):
@@ -493,7 +493,7 @@ def shrink_tree(tool, ctx, case, kindname, fails, rounds=40):
             c = {k: v for k, v in cur.items() if k in ("kind", "stream", "planted", "mut", "cdir")}
             c["tree"] = t
             cands.append(c)
-            if len(cands) >= 300:
+            if len(cands) >= 150:
                 break
         if not cands:
             break
